@@ -15,8 +15,8 @@ Record rule := mkRule { r_id : N; r_res : N; r_key : N; r_valid : bool; r_stat :
 
 (** PartialEq: same resource and same compared fields *)
 Definition rule_eqb (a b : rule) : bool := (r_res a =? r_res b) && (r_key a =? r_key b).
-(** element identity in a HashSet<Arc<Rule>>: the hash covers the id and the resource, Eq the rest *)
-Definition same_elem (a b : rule) : bool := (r_id a =? r_id b) && rule_eqb a b.
+(** element identity in a HashSet<Arc<Rule>>: equality of rules (the hash covers only compared fields) *)
+Definition same_elem (a b : rule) : bool := rule_eqb a b.
 (** is_stat_reusable *)
 Definition stat_reusable (a b : rule) : bool := (r_res a =? r_res b) && (r_stat a =? r_stat b).
 
@@ -39,8 +39,13 @@ Definition mgr0 : mgr := mkMgr (fun _ => []) (fun _ => []) [] 1.
 (** ** sets of rules *)
 Fixpoint mem_rule (r : rule) (l : list rule) : bool :=
   match l with [] => false | x :: tl => same_elem r x || mem_rule r tl end.
-Fixpoint dedup (l : list rule) : list rule :=
-  match l with [] => [] | x :: tl => if mem_rule x tl then dedup tl else x :: dedup tl end.
+(** inserting into a set keeps the element that is already there: the first of equal rules stays *)
+Fixpoint dedup_from (seen : list rule) (l : list rule) : list rule :=
+  match l with
+  | [] => []
+  | x :: tl => if mem_rule x seen then dedup_from seen tl else x :: dedup_from (x :: seen) tl
+  end.
+Definition dedup (l : list rule) : list rule := dedup_from [] l.
 Definition subset (a b : list rule) : bool := forallb (fun r => mem_rule r b) a.
 Definition set_eqb (a b : list rule) : bool := subset a b && subset b a.
 
